@@ -771,11 +771,13 @@ impl<'a> VisitMut for Rewriter<'a> {
             if (m == "map" || m == "filter_map" || m == "and_then") && mc.args.len() == 1 {
                 let mut rep: Option<Expr> = None;
                 if let Expr::Path(p) = &mc.args[0] {
-                    if p.qself.is_none() && p.path.segments.len() == 1 {
-                        let id = &p.path.segments[0].ident;
-                        let n = id.to_string();
-                        if n.chars().next().map(|c| c.is_ascii_uppercase()).unwrap_or(false) && n != "Some" && n != "Ok" && n != "Err" {
-                            rep = Some(parse_quote!(|__x| #id(__x)));
+                    if p.qself.is_none() && p.path.segments.len() >= 1 {
+                        // `Ctor` or `Enum::Variant` (every segment capitalised: a type path, not a function path)
+                        let all_caps = p.path.segments.iter().all(|sg| sg.ident.to_string().chars().next().map(|c| c.is_ascii_uppercase()).unwrap_or(false));
+                        let n = p.path.segments.last().unwrap().ident.to_string();
+                        if all_caps && n != "Some" && n != "Ok" && n != "Err" {
+                            let path = &p.path;
+                            rep = Some(parse_quote!(|__x| #path(__x)));
                         }
                     }
                 }
